@@ -7,6 +7,9 @@ CONSTANTS NB = 3
  BugAddMiddle = FALSE
  BugTxLoopVar = FALSE
  BugConfirmRace = TRUE
+ MaxBatch = 0
+ NBatch = 0
+ BugBatchBreak = FALSE
 INVARIANTS ConfirmsKept
 PROPERTY Forward
 CHECK_DEADLOCK FALSE
